@@ -243,7 +243,10 @@ def step (st : St) (op impl : String) : St × StepOut :=
         | .handshake => { g.dropSpace 1 with confirmed := true }
         | .zeroRTT =>
           -- the leading run of 0-RTT packets of the application-data space is discarded
-          { g with pkts := g.pkts.map fun p => if p.space = 2 ∧ p.zeroRTT then { p with maybeGone := true } else p }
+          -- (if only 0-RTT packets were sent so far, as in a real connection, that is all of them)
+          let only0 := g.pkts.all fun p => p.space ≠ 2 || p.zeroRTT || p.gone
+          { g with pkts := g.pkts.map fun p => if p.space = 2 ∧ p.zeroRTT then
+              (if only0 then { p with gone := true } else { p with maybeGone := true }) else p }
         | _ => g
       else g
     fin { st with s := s', g := g } res [s!"drop:{l}:{if out.res.isPanic then "panic" else if out.disc.isEmpty then "empty" else "frames"}"] []
